@@ -816,7 +816,10 @@ Definition run_hop (s : state) (h : hop) : state * obs :=
   | HOp o => run_op s o
   | HRestart => let s' := restart s in (s', snapshot s' ROk)
   | HBulk ps => let s' := fold_left (fun a p => fst (do_put a p NoFault)) ps s in (s', snapshot s' ROk)
-  | HReelect fs => let s' := restart (fold_left apply_foreign fs s) in (s', snapshot s' ROk)
+  | HReelect fs =>
+      (* the region tree of the earlier term survives with the BasicCluster (and the region storage is only read once per process) *)
+      let s1 := restart (fold_left apply_foreign fs s) in
+      let s' := State (served s1) (st_meta s1) (st_lw s1) (st_rw s1) (regions s) (cver s1) (cenv s1) in (s', snapshot s' ROk)
   end.
 Definition rcase := (ver * payload * list hop * list obs)%type.
 Definition model_robs (c : rcase) : list obs :=
@@ -839,7 +842,7 @@ Fixpoint mon_run_r (past : list op) (rg : amap (list Z)) (hs : list hop) (prev :
   | HReelect _ :: r, b :: br =>
       (* the re-elected leader serves exactly what storage holds NOW (the other leader's changes included) *)
       ((if list_eqb entry_proj_eqb (o_stored b) (o_served b) then [] else ["C14:re-elected-leader-serves-stale-store-records"]) ++
-       mon_run_r past [] r b br)%list
+       mon_run_r past rg r b br)%list
   | HBulk _ :: r, b :: br => ((if addr_unique (o_served b) then [] else ["C14:duplicate-live-address"]) ++ mon_run_r past rg r b br)%list
   | _, _ => []
   end.
